@@ -398,6 +398,9 @@ func (r *Rsvcb) MarshalText() (text []byte, err error) {
 	default:
 		return nil, fmt.Errorf("unknown wiretype for SVCB record")
 	}
+	if r.iswildcard {
+		buf.WriteString("*.")
+	}
 	putdomtext(buf, r.dom)
 	buf.Write(NSEP)
 	putdomtext(buf, r.tgtname)
